@@ -295,7 +295,7 @@ func Corrupt(t *rapid.T, frame []byte) ([]byte, string) {
 	f := make([]byte, len(frame))
 	copy(f, frame)
 	n := len(f)
-	kind := rapid.IntRange(0, 12).Draw(t, "corruptKind")
+	kind := rapid.IntRange(0, 13).Draw(t, "corruptKind")
 	note := ""
 	switch kind {
 	case 0: // single bit flip anywhere
@@ -360,6 +360,18 @@ func Corrupt(t *rapid.T, frame []byte) ([]byte, string) {
 		c := ref.CRC24Q(body)
 		f = append(body, byte(c>>16), byte(c>>8), byte(c))
 		note = "16-bit-length+crc"
+	case 13: // a complete CRC-valid smaller frame stamped over part of the payload / CRC
+		small := enc.Frame(enc.PayloadWithType(rapid.SampledFrom([]int{1005, 1077, 1230, 62}).Draw(t, "stampType"), rapid.IntRange(2, 12).Draw(t, "stampLen"), []byte{0x5a, 0xd3}))
+		if n-3 >= len(small) {
+			p := rapid.IntRange(3, n-len(small)).Draw(t, "stampAt")
+			copy(f[p:], small)
+			if ref.ValidFrame(f) {
+				f[n-1] ^= 1
+			}
+		} else {
+			f[n-1] ^= 1
+		}
+		note = "valid-frame-stamped-inside"
 	case 11: // payload byte changed
 		if n > 7 {
 			p := rapid.IntRange(3, n-4).Draw(t, "payloadPos")
